@@ -93,6 +93,18 @@ def main():
             agree.append((t1, t2, "struct-literal-member-literal", "struct S\n{\n\tk: u8,\n\tm: %s,\n}\nfn main()\n{\n\tvar s = S { k: 1u8, m: %s };\n}\n" % (t2, lit(t1))))
             agree.append((t1, t2, "struct-literal-pointer-member", "struct S\n{\n\tm: &%s,\n}\nfn main()\n{\n%s\tvar s = S { m: &a };\n}\n" % (t2, v)))
             agree.append((t1, t2, "member-assignment", "struct S\n{\n\tm: %s,\n}\nfn main()\n{\n%s\tvar s = S { m: %s };\n\ts.m = a;\n}\n" % (t2, v, lit(t2))))
+            # the assignee reached through pointers: a pointer variable, a pointer parameter, a pointer in an array, a pointer
+            # member, a pointer to a pointer; and an element instead of a member
+            SDEF = "struct S\n{\n\tm: %s,\n}\nstruct H\n{\n\tps: &S,\n}\n" % t2
+            SVAR = "\tvar s = S { m: %s };\n" % lit(t2)
+            agree.append((t1, t2, "member-assignment-through-pointer", SDEF + "fn main()\n{\n%s%s\tvar p: &S = &s;\n\tp.m = a;\n}\n" % (v, SVAR)))
+            agree.append((t1, t2, "member-assignment-through-pointer-parameter", SDEF + "fn set(p: &S)\n{\n%s\tp.m = a;\n}\nfn main()\n{\n}\n" % v))
+            agree.append((t1, t2, "member-assignment-through-pointer-in-array", SDEF + "fn main()\n{\n%s%s\tvar ps: [2]&S = [&s, &s];\n\tps[1].m = a;\n}\n" % (v, SVAR)))
+            agree.append((t1, t2, "member-assignment-through-pointer-member", SDEF + "fn main()\n{\n%s%s\tvar h = H { ps: &s };\n\th.ps.m = a;\n}\n" % (v, SVAR)))
+            agree.append((t1, t2, "member-assignment-through-pointer-to-pointer", SDEF + "fn main()\n{\n%s%s\tvar p: &S = &s;\n\tvar pp: &&S = &&p;\n\tpp.m = a;\n}\n" % (v, SVAR)))
+            agree.append((t1, t2, "element-assignment-through-pointer", "fn main()\n{\n%s\tvar arr: [2]%s = [%s, %s];\n\tvar p: &[2]%s = &arr;\n\tp[1] = a;\n}\n" % (v, t2, lit(t2), lit(t2), t2)))
+            agree.append((t1, t2, "element-assignment-through-slice-pointer-parameter", "fn set(p: &[]%s)\n{\n%s\tp[1] = a;\n}\nfn main()\n{\n}\n" % (t2, v)))
+            agree.append((t1, t2, "pointee-assignment", "fn set(p: &%s)\n{\n%s\tp = a;\n}\nfn main()\n{\n}\n" % (t2, v)))
     # the length of an array is part of its type: array literals, annotations and pointers to arrays agree only at equal
     # shapes; a nested literal must not be ragged
     def arr_lit(shape, elem="i32"):
